@@ -376,6 +376,8 @@ ACYCLIC_LOOKALIKE = [
     ('ok-self-count', 'type SC { property n := count(SC); };'),
     ('ok-computed-chain', 'type Ch { property a -> int64; property b := .a + 1; property c := .b + 1; property d := .c + .a; };'),
     ('ok-alias-chain', 'type AT { property p -> str; }; alias A1 := AT { p }; alias A2 := (select A1 filter .p = "x"); alias A3 := A2.p;'),
+    ('ok-alias-of-alias-path', "type Mv { property title -> str; link o -> Pn; }; type Pn { property nm -> str; }; alias A := Mv; "
+                               "alias B := (select A filter .title = 'x');"),
     ('ok-diamond', 'abstract type D0 { property p -> str; }; type D1 extending D0; type D2 extending D0; type D3 extending D1, D2;'),
     ('ok-func-chain', 'function g1(a: int64) -> int64 using (a + 1); function g2(a: int64) -> int64 using (g1(a) + 1); function g3() -> int64 using (g2(g1(1)));'),
     ('ok-computed-other-type', 'type O1 { link o -> O2; property v := .o.w; }; type O2 { property w := 1; link back := .<o[is O1]; };'),
